@@ -115,11 +115,11 @@ def match_bool(s: str, pos: int) -> int:
 
 
 def matchbool(c: Cursor) -> bool | None:
-    if (p := match_bool(c.textstr, c.pos)) is None:
+    if (p := match_bool(c.textstr, c.pos)) < 0:
         return None
     i = c.pos
     c.goto(p)
-    return bool(c.textstr[i:p].capitalize())
+    return c.textstr[i:p].lower() == 'true'
 
 
 def match_uint(s: str, pos: int) -> int:
@@ -127,10 +127,10 @@ def match_uint(s: str, pos: int) -> int:
     p = pos
     while p < len(s):
         c = s[p]
-        if c.isdigit():
+        if c.isdecimal():
             p += 1
         elif c == '_':
-            if p + 1 < len(s) and s[p + 1].isdigit():
+            if p > pos and p + 1 < len(s) and s[p + 1].isdecimal():
                 p += 1
             else:
                 return -1
@@ -138,6 +138,8 @@ def match_uint(s: str, pos: int) -> int:
             return -1
         else:
             break
+    if p == pos:
+        return -1  # no digits at all
     return p
 
 
@@ -146,7 +148,7 @@ def match_int(s: str, pos: int) -> int:
     if p < len(s) and s[p] in {'+', '-'}:
         p += 1
 
-    if p >= len(s) or not s[p].isdigit():
+    if p >= len(s) or not s[p].isdecimal():
         return -1
 
     return match_uint(s, p)
@@ -162,7 +164,8 @@ def match_float(s: str, pos: int) -> int:
 
     if p < len(s) and s[p] == '.':
         p += 1
-        if (q := match_int(s, p)) > 0:
+        # the fractional part is unsigned
+        if p < len(s) and s[p].isdecimal() and (q := match_uint(s, p)) > 0:
             p = q
 
     if p < len(s) and s[p].lower() == 'e':
